@@ -143,6 +143,8 @@ impl FeoxStore {
         let mut observed = None;
 
         loop {
+            #[cfg(feoxdb_verif)]
+            crate::verif::sched::point("c07_incr_top");
             let Some(current) = self.hash_table.read(key, |_, record| Arc::clone(record)) else {
                 let retired_at = observed
                     .as_ref()
@@ -158,6 +160,8 @@ impl FeoxStore {
                     return Err(FeoxError::OlderTimestamp);
                 }
 
+                #[cfg(feoxdb_verif)]
+                crate::verif::sched::point("c07_incr_create");
                 match self.hash_table.entry(key_vec.clone()) {
                     scc::hash_map::Entry::Occupied(_) => continue,
                     scc::hash_map::Entry::Vacant(entry) => {
@@ -228,6 +232,8 @@ impl FeoxStore {
             let new_value = current_value.saturating_add(delta);
             let timestamp = explicit_timestamp.unwrap_or_else(|| self.get_timestamp(key));
 
+            #[cfg(feoxdb_verif)]
+            crate::verif::sched::point("c07_incr_guard");
             match self.hash_table.entry(key_vec.clone()) {
                 scc::hash_map::Entry::Occupied(mut entry) => {
                     let old_record = entry.get();
@@ -497,6 +503,8 @@ impl FeoxStore {
         };
 
         let timestamp = self.resolve_timestamp(key, timestamp);
+        #[cfg(feoxdb_verif)]
+        crate::verif::sched::point("c07_cas_guard");
         self.replace_record_if_current(
             &key_vec,
             &initial_record,
